@@ -30,6 +30,7 @@ def summarize(out):
 
 def main():
     src, mid, prop = os.path.abspath(sys.argv[1]), sys.argv[2], sys.argv[3]
+    rel = ["--release"] if "--release-demo" in sys.argv else []   # the demonstration needs the release profile
     dest = os.path.join("/verif/seeded", mid)
     scratch = "/var/tmp/verif_seed_%s_%d" % (mid, os.getpid())
     repo = os.path.join(scratch, "repo")
@@ -48,9 +49,9 @@ def main():
         targs = []
         for d in demo_names:
             targs += ["--test", d]
-        rc, out = sh(["cargo", "test", "--offline"] + targs, cwd=repo, env=env)
+        rc, out = sh(["cargo", "test", "--offline"] + rel + targs, cwd=repo, env=env)
         p, f = summarize(out)
-        meta["ran"].append({"cmd": "cargo test --offline " + " ".join(targs) + "   # unchanged tree", "rc": rc,
+        meta["ran"].append({"cmd": "cargo test --offline " + " ".join(rel + targs) + "   # unchanged tree", "rc": rc,
                             "passed": p, "failed": f})
         meta["demo_passes_without_change"] = (rc == 0 and f == 0 and p > 0)
         rc, out = sh(["git", "apply", os.path.join(src, "patch.diff")], cwd=repo)
@@ -70,9 +71,9 @@ def main():
                 meta["suite_tail"] = out[-1500:]
             for d in demo_names:
                 os.rename(os.path.join(scratch, d + ".rs"), os.path.join(repo, "tests", d + ".rs"))
-            rc, out = sh(["cargo", "test", "--offline", "--no-fail-fast"] + targs, cwd=repo, env=env)
+            rc, out = sh(["cargo", "test", "--offline", "--no-fail-fast"] + rel + targs, cwd=repo, env=env)
             p, f = summarize(out)
-            meta["ran"].append({"cmd": "cargo test --offline " + " ".join(targs) + "   # with the change", "rc": rc,
+            meta["ran"].append({"cmd": "cargo test --offline " + " ".join(rel + targs) + "   # with the change", "rc": rc,
                                 "passed": p, "failed": f, "tail": out[-600:]})
             meta["demo_fails_with_change"] = rc != 0
     finally:
